@@ -311,6 +311,8 @@ def toCst : Nat → Nat → Nat → Ty → Option TypeE
       -- `write_array_type`: an optional element type is parenthesised
       let s : Simple := match b with
         | .union ms => if ms.toList.any (fun t => decide (t = Ty.tNil)) then .mk (.paren c) 0 else asSimple c
+        -- … and so is a negative integer literal (`-1[]` would read as `-(1[])`)
+        | .lit (.docInt i) | .lit (.intC i) => if i < 0 then .mk (.paren c) 0 else asSimple c
         | _ => asSimple c
       match s with
       | .mk p k => some (.mk (.mk p (k + 1)) .nil 0)
